@@ -86,7 +86,8 @@ Next ==
          b0    == IF fresh THEN "" ELSE bad
          r     == IF e.op = "classdef" THEN FoldBody(s0, Reserved(e), e.body, 1)
                   ELSE Apply(s0, Reserved(e), e, e.seq)
-         c     == Clause(e, s0, r.st, r.raised, f0)
+         \* the OTHER object (values were copied from it, an ExternalModule was built from its ports) stays exactly as it was
+         c     == IF e.aux # e.aux0 THEN "other_object_disturbed" ELSE Clause(e, s0, r.st, r.raised, f0)
          b1    == IF b0 # "" THEN b0 ELSE IF c = "" THEN "" ELSE c \o "@" \o ToString(e.seq)
          last  == l = Len(T) \/ T[l + 1].tid # e.tid
      IN /\ st' = r.st
